@@ -2,6 +2,7 @@ package verifsim
 
 import (
 	"os"
+	"runtime/debug"
 	"strings"
 	"context"
 	"crypto/ed25519"
@@ -204,6 +205,9 @@ func gqlOn(ctx context.Context, s client.Store, req string) (data map[string]any
 	defer func() {
 		if r := recover(); r != nil {
 			errs = append(errs, fmt.Sprintf("PANIC: %v @ %s", r, panicSite()))
+			if gqlTrace {
+				fmt.Fprintf(os.Stderr, "GQL-PANIC %s: %v\n%s\n", req, r, debug.Stack())
+			}
 		}
 	}()
 	res := s.ExecRequest(ctx, req)
